@@ -106,10 +106,16 @@ def make_merge_check(pid):
             # the collection's `completed`, before and after its merge, and collections over re-used readers
             from . import coll_family
             coll_family.run_stage_checks(oc, pid, tier, seed)
+            # ... and the written-out running order read back through the command line (file, S3 prefix, S3 key)
+            from . import io_family
+            io_family.detect_completed_check(oc, pid)
         if pid == 'C12':
             # whether float() raises on a timing field is what a merge depends on: the model's grammar against the interpreter's
             from . import access_family
             access_family.numbers_check(oc, seed)
+            # "classifying any well-formed XML document": through every documented source and declared encoding
+            from . import io_family
+            io_family.escape_check(oc, pid)
         oc.exhaustive = False
         oc.extra['exhaustive_part'] = 'the G-pos scope is enumerated completely; histories, fuzz and odd shapes are samples'
         oc.extra['scope'] = ('G-pos enumerated completely for the tier scope (see harness/gen_pos.py and '
@@ -191,4 +197,4 @@ def replay(payload):
     return handler(pid, fl)
 
 
-REPLAYERS = {'sources': io_family.replay_c18, 'sources-bytes': io_family.replay_c18, 'listing': io_family.replay_c18, 'collection-sources': io_family.replay_c18, 'cli': io_family.replay_c19, 'cli-s3': io_family.replay_c19_s3, 'cli-process': io_family.replay_c19_s3, 'alias-history': alias_family.replay, 'alias-targeted': alias_family.replay, 'alias-fresh-process': alias_family.replay, 'roundtrip': ser_family.replay, 'roundtrip-locale': ser_family.replay_locale, 'elements': elem_family.replay, 'classify': class_family.replay, 'classify-bytes': class_family.replay, 'access': access_family.replay, 'collection': coll_family.replay, 'collection-perm': coll_family.replay, 'validate': coll_family.replay, 'collection-stages': coll_family.replay}
+REPLAYERS = {'sources': io_family.replay_c18, 'sources-bytes': io_family.replay_c18, 'sources-escape': io_family.replay_c18, 'cli-noinput': io_family.replay_c19_s3, 'cli-detect-completed': io_family.replay_c19_s3, 'listing': io_family.replay_c18, 'collection-sources': io_family.replay_c18, 'cli': io_family.replay_c19, 'cli-s3': io_family.replay_c19_s3, 'cli-process': io_family.replay_c19_s3, 'alias-history': alias_family.replay, 'alias-targeted': alias_family.replay, 'alias-fresh-process': alias_family.replay, 'roundtrip': ser_family.replay, 'roundtrip-locale': ser_family.replay_locale, 'elements': elem_family.replay, 'classify': class_family.replay, 'classify-bytes': class_family.replay, 'access': access_family.replay, 'collection': coll_family.replay, 'collection-perm': coll_family.replay, 'validate': coll_family.replay, 'collection-stages': coll_family.replay}
